@@ -1821,6 +1821,9 @@ func (kmc *KeystoreManagerForPoC) ChangePrivPassphrase(oldPrivPass, newPrivPass 
 		addrManager.masterKeyPriv = newMasterPrivKey
 		addrManager.privPassphraseSalt = passphraseSalt
 		addrManager.hashedPrivPassphrase = hashedPassphrase
+		if !addrManager.unlocked {
+			newMasterPrivKey.Zero()
+		}
 	}
 	return nil
 }
